@@ -330,6 +330,12 @@ func (bucket *Bucket) _db() queryable {
 
 // Runs a function within a SQLite transaction.
 func (bucket *Bucket) inTransaction(fn func(txn *sql.Tx) error) error {
+	return bucket.inTransactionThen(fn, nil)
+}
+
+// Runs a function within a SQLite transaction. If the transaction commits, `onCommit` (if non-nil) is
+// called before the bucket mutex is released, i.e. before any other transaction can commit.
+func (bucket *Bucket) inTransactionThen(fn func(txn *sql.Tx) error, onCommit func()) error {
 	// SQLite allows only a single writer, so use a mutex to avoid BUSY and LOCKED errors.
 	// However, these errors can still occur (somehow?), so we retry if we get one.
 	// --Update, 25 July 2023: After adding "_txlock=immediate" to the DB options when opening,
@@ -358,6 +364,9 @@ func (bucket *Bucket) inTransaction(fn func(txn *sql.Tx) error) error {
 
 		if err == nil {
 			err = txn.Commit()
+			if err == nil && onCommit != nil {
+				onCommit()
+			}
 		}
 
 		if err != nil {
